@@ -205,7 +205,11 @@ func (a *AddressDecMap) Decode(r stdio.Reader) (err error) {
 		return errors.WithMessage(err, "decoding map length")
 	}
 
-	*a = make(map[BackendID]Address, mapLen)
+	if mapLen < 0 {
+		return errors.Errorf("negative map length: %d", mapLen)
+	}
+	// The declared length comes from the wire: do not pre-allocate from it.
+	*a = make(map[BackendID]Address)
 	for i := range mapLen {
 		var idx int32
 		err := perunio.Decode(r, &idx)
@@ -230,12 +234,18 @@ func (a *AddressMapArray) Decode(r stdio.Reader) (err error) {
 		return errors.WithMessage(err, "decoding array length")
 	}
 
-	a.Addr = make([]map[BackendID]Address, mapLen)
+	if mapLen < 0 {
+		return errors.Errorf("negative array length: %d", mapLen)
+	}
+	// The declared length comes from the wire: do not pre-allocate from it.
+	a.Addr = make([]map[BackendID]Address, 0)
 	for i := range mapLen {
-		err := perunio.Decode(r, (*AddressDecMap)(&a.Addr[i]))
+		var m AddressDecMap
+		err := perunio.Decode(r, &m)
 		if err != nil {
 			return errors.WithMessagef(err, "decoding %d-th address map entry", i)
 		}
+		a.Addr = append(a.Addr, m)
 	}
 	return nil
 }
